@@ -14,6 +14,8 @@ ENTRY = dict(
         "chunkings, compared with the statement-derived expectation and with the model."),
     level_note="Byte semantics proved; independence from chunking/arrival timing proved for the resumable reader machine given the buffer contract of StreamReader.read(1)/readexactly(n) (that contract is trusted and exercised at every suspension).",
     clauses={
+        "a reader / a connection in a process with HISTORY -- earlier read() calls abandoned (READER_TIMEOUT through the real @timeout, a caller's wait_for, cancellation; a connection ended by reader time-out / cancel_tasks / shutdown() while its producer was reading) at EVERY suspension point of read(), the Frame.create executor hop with its job still pending included (the awaiting task is cancelled and asyncio cancels the awaited run_in_executor future with it; harness/vloop.py's executor is checked against the real thread-pool executor in this respect on every run): well-formed frames that arrive afterwards (same handler module and the other two; same reader and new readers) are each delivered once and in order":
+            "theorem (C14.history_leaves_no_residue / next_call_after_history_is_read, Props/C14History.lean registered under C14: the rest of a session after ANY history is the session of a fresh reader on what arrived minus what was consumed, to which C04.stream applies) + correspondence (harness/history.py: reader histories in fresh python processes vs Model/ReaderSession.sessionX)",
         "every frame sequence classified once and in order": "theorem (C04.stream, C04.delivered_exactly)",
         "skipped/rejected frames never desync": "theorem (C04.one_frame consumes exactly the frame)",
         "protocol level: the deliverable frames reach the device each once and in order for every chunking / arrival timing, bursts of any length":
